@@ -339,6 +339,7 @@ func runC11(w *mon.W) {
 	}
 	c11NumericGrid(w)
 	c11KindGrid(w)
+	c11DeepNesting(w)
 	r := w.Rng
 	// ---------- (a) classical reading inside the resolving fragment
 	na := w.Share(w.Pick(120000, 1500000))
@@ -910,6 +911,85 @@ func c11KindGrid(w *mon.W) {
 								map[string]any{"policy": p.String(), "data": d.String(), "match": m, "partial": pm, "model": want, "form": vi})
 						}
 					}
+				}
+			}
+		}
+	}
+}
+
+// c11DeepNesting: a statement under d enclosing not / and / or statements, d on both sides of
+// every plausible limit (up to 300): the value of the whole follows from the leaf by the
+// classical reading whatever the depth - a depth guard that substitutes a constant is
+// flipped by the enclosing negations. Built through the constructors and through IPLD.
+func c11DeepNesting(w *mon.W) {
+	r := w.Rng
+	depths := []int{5, 16, 17, 31, 32, 33, 34, 63, 64, 65, 100, 127, 128, 129, 130, 200, 255, 256, 257, 300}
+	idx := 0
+	for _, d := range depths {
+		for variant := 0; variant < 6; variant++ {
+			idx++
+			if !w.Mine(idx) {
+				continue
+			}
+			leafTrue := variant%2 == 0
+			data := ref.Map(ref.E("a", ref.Int(1)))
+			st := ref.Stmt{Kind: "==", Sel: ref.Sel{{Kind: ref.SField, Name: "a"}}, Val: ref.Int(1)}
+			if !leafTrue {
+				st.Val = ref.Int(2)
+			}
+			for i := 0; i < d; i++ {
+				k := "not"
+				switch variant / 2 {
+				case 1:
+					k = []string{"not", "and", "or"}[i%3]
+				case 2:
+					k = []string{"not", "not", "and", "or", "not"}[r.IntN(5)]
+				}
+				switch k {
+				case "not":
+					st = ref.Stmt{Kind: "not", Subs: []ref.Stmt{st}}
+				case "and":
+					st = ref.Stmt{Kind: "and", Subs: []ref.Stmt{{Kind: "==", Sel: ref.Sel{{Kind: ref.SField, Name: "a"}}, Val: ref.Int(1)}, st}}
+				default:
+					st = ref.Stmt{Kind: "or", Subs: []ref.Stmt{st, {Kind: "==", Sel: ref.Sel{{Kind: ref.SField, Name: "a"}}, Val: ref.Int(3)}}}
+				}
+			}
+			p := ref.Policy{st}
+			t, _ := ref.EvalPolicy(p, data)
+			if t == ref.Unresolved {
+				continue
+			}
+			want := t == ref.True
+			var pols []policy.Policy
+			if c, err := gen.BuildPolicy(p); err == nil {
+				pols = append(pols, c)
+			} else {
+				w.Count("deep/constructor-refused", 1)
+			}
+			if ip, err := gen.BuildPolicyIPLD(p); err == nil {
+				pols = append(pols, ip)
+			} else {
+				w.Count("deep/ipld-refused", 1)
+			}
+			for vi, pol := range pols {
+				var m, pm bool
+				if pi := mon.Guard(func() {
+					m, _ = pol.Match(data.Node())
+					pm, _ = pol.PartialMatch(data.Node())
+				}); pi != nil {
+					w.Count("match-panics(judged by C09)", 1)
+					continue
+				}
+				w.Eval(2)
+				w.Cover("deep-nesting")
+				if d > 128 {
+					w.Cover("deep-nesting/over-128")
+				}
+				w.Distinct("deep", d, variant, vi)
+				if m != want || pm != want {
+					w.Violate(fmt.Sprintf("a/deep-nesting/match=%v/want=%v", m, want),
+						fmt.Sprintf("a leaf that is %v under %d enclosing not/and/or statements: Match=%v PartialMatch=%v, the classical reading gives %v (form %d)", leafTrue, d, m, pm, want, vi),
+						map[string]any{"depth": d, "leaf_true": leafTrue, "variant": variant, "match": m, "partial": pm, "model": want, "policy_head": mon.Trunc(p.String(), 300)})
 				}
 			}
 		}
